@@ -854,3 +854,58 @@ def wrappers(ctx, rel_names):
         ctx.check(ok, "WRAP", rel, "forwards-parameters-in-order",
                   "ciphersuite wrapper `%s` does not forward its parameters, in order, to the frost-core function of the "
                   "same name: %s" % (rel, fmt(ref)[:160]))
+
+
+# ---------------- refusal inventory: the set of ways a function can return Err ----------------
+
+def err_inventory(prog, fn):
+    """multiset of refusal sites of fn: 'Err:<Variant>' for explicit `Err(Error::Variant..)` returns and
+    '?:<callee or ok_or:Variant>' for propagated errors"""
+    v = FnView.get(prog, fn)
+    inv = {}
+    def add(k):
+        inv[k] = inv.get(k, 0) + 1
+    for (b, k, w) in ret_writes(fn):
+        if k == "err":
+            t = v.cx.operand(w["ops"][0])
+            if t[0] == "agg":
+                add("Err:" + str(t[3]))
+            elif is_call(t, name="into") or is_call(t, name="from"):
+                inner = t[2][0]
+                add("Err:" + (str(inner[3]) if inner[0] == "agg" else "converted"))
+            else:
+                add("Err:?")
+        elif k == "residual":
+            t = v.cx.call(w, (fn.key, b))
+            src = t[1] if t[0] == "residual" else t
+            if src[0] == "errval":
+                src = src[1]
+            while src[0] == "map_err":
+                src = src[1]
+            if src[0] == "ok_or":
+                e = src[2]
+                add("?:ok_or:" + (str(e[3]) if e[0] == "agg" else "?"))
+            elif src[0] == "call":
+                add("?:" + src[1].rsplit("::", 1)[-1])
+            else:
+                add("?:" + src[0])
+    return inv
+
+
+def refusal_inventory(ctx):
+    """valid inputs are not refused: no listed function has gained a way to return Err (see rules/refusal_table.py)"""
+    from .rules.refusal_table import TABLE
+    P = ctx.prog
+    for key, (exp, props) in sorted(TABLE.items()):
+        if ctx.prop not in props:
+            continue
+        if ctx.core_only and not key.startswith(("frost_core::", "<frost_core::")):
+            continue
+        f = ctx.anchor(key, rule="REFUSALS")
+        if not f:
+            continue
+        got = err_inventory(P, f)
+        added = {k: n - exp.get(k, 0) for k, n in got.items() if n > exp.get(k, 0)}
+        ctx.check(not added, "REFUSALS", key, "no-added-refusal",
+                  "%s has gained refusal site(s) %s beyond the reviewed set %s: inputs the property requires to succeed "
+                  "may now be rejected" % (short(key), added, exp), f.loc, {"found": got})
